@@ -127,3 +127,44 @@ _fin0 = finalize
 def finalize(db):  # noqa: F811
     _fin0(db)
     finalize_reject(db)
+
+
+def share_connection(ip, args):
+    me = args["self"]
+    broker = ip.st.heap[(me.ref, "broker")]
+    ip.st.heap[(me.ref, "conn")] = ip.st.heap[(broker.ref, "conn")]
+
+
+def finalize_consumer(db):
+    K = "repid/connections/redis/consumer.py::_RedisConsumer."
+    STORE = [f"{C}.lists", f"{C}.zmem", f"{C}.zscore", f"{C}.hmem", f"{C}.hval"]
+    db.contract(fn=K + "__mark_processing", serves=["C14"], inline=True, note="private helper that only queues commands")
+    db.shape("RedisMessageBroker", {"processing_queue": "str"})
+    MATCH = "(not nonempty(topics) or exists(t, 'str', t in topics and result.startswith(t + ':')))"
+    db.contract(
+        fn=K + "__fetch_message_name", assumed=True, is_async=True, returns="Optional[str]",
+        binds={"full_queue_name": "str", "startswith_topics": "opaque", "delayed": "bool", "force_delayed": "bool"},
+        ensures={"in_source_when_seen": f"implies(result is not None, ite(delayed, r_zhas({C}, full_queue_name, result),"
+                                        f" contains(r_list({C}, full_queue_name), result)))"},
+        note="placeholder (the window scan is decided separately): a name that was in the source when it was read")
+    db.contract(
+        fn=K + "__get_message_name", serves=["C14", "C01"], binds={"full_queue_name": "str", "topics": "set[str]"},
+        setup=share_connection,      # consumer.conn IS broker.conn (set in _RedisConsumer.__init__)
+        requires=["self.broker.processing_queue == 'processing'"],
+        # other consumers run between this consumer's round trips: anything may happen to the lists and sorted sets
+        shared=[f"{C}.lists", f"{C}.zmem", f"{C}.zscore"], rely=[],
+        ensures={
+            # C14: a name is handed out only if THIS consumer's transaction removed it from the source
+            "taken_only_if_removed_by_me": "implies(result is not None, redis_removed() == 1)",
+            "nothing_taken_nothing_marked": f"implies(result is None, {C}.hmem == old({C}.hmem) and {C}.hval == old({C}.hval))",
+        },
+        raises=[], modifies=STORE, returns="Optional[str]",
+    )
+
+
+_fin1 = finalize
+
+
+def finalize(db):  # noqa: F811
+    _fin1(db)
+    finalize_consumer(db)
